@@ -12,7 +12,7 @@ FAMS = {
     "C03": (["tolerance", "crashfn"], ["tolerance", "big", "cont", "crash", "crashfn"]),
     "C04": (["tolerance", "gates", "contq"], ["tolerance", "gates", "cont", "order", "big", "live"]),
     "C05": (["retry", "retryov"], ["retry", "retrychk", "retryov", "retrychkov"]),
-    "C06": (["gates"], ["gates", "gates2"]),
+    "C06": (["gates", "crashchkfn"], ["gates", "gates2", "crashchk", "crashchkfn"]),
     "C07": (["contq", "gates"], ["cont", "gates", "gates2", "live"]),
     "C08": (["order", "retry", "poll"], ["order", "retry", "poll", "tolerance", "gates"]),
     "C09": (["crash", "crash2"], ["crash", "crash2", "crashchk", "crashchkfn", "crashdeep"]),
